@@ -414,6 +414,8 @@ def _unary(case):
         if cn in ("SO3", "SE3"):
             acc("eul", lambda o: o.eul(), layouts=True)
             acc("eul/deg", lambda o: o.eul(unit="deg"), layouts=True)
+            acc("eul/flip", lambda o: o.eul(flip=True), layouts=True)      # whatever flip does, it does it per value
+            acc("eul/deg/flip", lambda o: o.eul("deg", True), layouts=True)
             acc("rpy", lambda o: o.rpy(), layouts=True)
             acc("rpy/xyz/deg", lambda o: o.rpy(unit="deg", order="xyz"), layouts=True)
         else:
